@@ -7,7 +7,8 @@ def run(chk, replay=None):
     chk.stage_proofs()
     n = 6 if chk.tier == "quick" else 30
     variants = {"reset_step": dict(drive="reset_step"), "run": dict(drive="run"), "override": dict(drive="override"),
-                "jit": dict(drive="reset_step", jit=True)}
+                "jit": dict(drive="reset_step", jit=True),
+                "carry": dict(drive="reset_step", episodes=2, carry=True)}   # 2nd episode restarted from the 1st one's final graph state
     graphs = al.async_suite(chk, n, variants)
     for G in graphs:
         if G["skipped"]: chk.feat("skipped:" + G["skipped"].split(":")[0]); continue
@@ -20,9 +21,11 @@ def run(chk, replay=None):
                 continue
             ep = al.canon_neg(r["episodes"][0])
             chk.case(key, al.features(cfg) + [vn], dict(cfg=cfg, variant=vn) if vn == "override" else None)
-            chk.traces_impl += 1
-            for sig, det in ac.check_c06(cfg, ep, cfg["sup"], variants[vn]["drive"]):
-                chk.violation(sig, det, dict(cfg=cfg, variant=vn, calls=[c[:2] for c in ep["calls"]][:60]))
+            for ei, epx in enumerate(r["episodes"]):
+                if "error" in epx["record"]: continue
+                chk.traces_impl += 1
+                for sig, det in ac.check_c06(cfg, epx, cfg["sup"], variants[vn]["drive"]):
+                    chk.violation(sig, f"episode {ei}: {det}", dict(cfg=cfg, variant=vn, calls=[c[:2] for c in epx["calls"]][:60]))
             # model tie: the rows (hence the ticks whose execution is counted) are the model's
             if vn != "jit":
                 d = al.compare_episode(cfg, ep, G["models"][0])
